@@ -12,8 +12,8 @@
 
    An agent is alive iff some strong reference exists: alive a := a in reg \/ a in ext \/ a in cur.
    A callback may raise (Raise: the loop is left at once, the exception travels through every running
-   activation) and may start an activation itself (Nested; the agents called there run a second,
-   level-0 script).
+   activation) and may start an activation itself (Nested; TryNested when it catches what comes out
+   of it), to any depth: exN scs, one script per nesting level.
    do/map:      for agentref in self._agents.keyrefs(): if (agent := agentref()) is not None: call
    shuffle_do:  weakrefs = list(keyrefs()); self.random.shuffle(weakrefs); same loop over weakrefs
    The permutation chosen by random.shuffle is an input (`perm`), checked to be a permutation of the
@@ -145,7 +145,8 @@ Inductive act :=
 | DropRef (i : Z)
 | AddRef (i : Z)
 | Raise                                      (* the callback raises: the activation is aborted *)
-| Nested (k : akind) (r : sref) (perm : list Z).  (* the callback itself calls r.do / shuffle_do / map *)
+| Nested (k : akind) (r : sref) (perm : list Z)   (* the callback itself calls r.do / shuffle_do / map *)
+| TryNested (k : akind) (r : sref) (perm : list Z). (* the same inside  try: ... except Exception: pass *)
 
 Definition exec_act (self : Z) (s : st) (a : act) : st :=
   match a with
@@ -156,7 +157,8 @@ Definition exec_act (self : Z) (s : st) (a : act) : st :=
   | DropRef i => sweep (set_ext (remove_first i (ext s)) s)
   | AddRef i => if alive s i then set_ext (ext s ++ [i]) s else s
   | Raise => s
-  | Nested _ _ _ => s          (* given a meaning by the executor ex1 below *)
+  | Nested _ _ _ => s          (* given a meaning by the executors ex_next / exN below *)
+  | TryNested _ _ _ => s
   end.
 
 Definition script := list (Z * list act).
@@ -236,21 +238,46 @@ Definition shuffle_then_do (ex : executor) (perm : list Z) (sc : script) (snap :
 Definition is_raise (a : act) : bool := match a with Raise => true | _ => false end.
 Definition ex0 : executor := fun self s a => (exec_act self s a, is_raise a).
 
-(* level 1: a callback may call do / shuffle_do / map on a set; the agents called by that inner
-   activation run the level-0 script sc2; an exception in there travels out through the callback *)
-Definition ex1 (sc2 : script) : executor := fun self s a =>
+(* one level up: a callback may call do / shuffle_do / map on a set; the agents called by that inner
+   activation run the script sc2 under the executor `inner`; an exception in there travels out through
+   the callback (Nested) unless the callback catches it (TryNested: the inner activation is still
+   aborted, its frame is gone, the callback goes on) *)
+Definition ex_next (inner : executor) (sc2 : script) : executor := fun self s a =>
   match a with
   | Nested k r perm =>
       match lookup r (sets s) with
       | None => (s, false)
       | Some snap =>
-          match activate ex0 k perm sc2 snap s with
+          match activate inner k perm sc2 snap s with
           | None => (set_nlog (nlog s ++ [-3]) s, false)
           | Some (s', log, rz) => (set_nlog (nlog s' ++ (-35 :: log)) s', rz)
           end
       end
+  | TryNested k r perm =>
+      match lookup r (sets s) with
+      | None => (s, false)
+      | Some snap =>
+          match activate inner k perm sc2 snap s with
+          | None => (set_nlog (nlog s ++ [-3]) s, false)
+          | Some (s', log, rz) => (set_nlog (nlog s' ++ (-35 :: log) ++ (if rz then [-36] else [])) s', false)
+          end
+      end
   | _ => ex0 self s a
   end.
+Definition ex1 (sc2 : script) : executor := ex_next ex0 sc2.
+
+(* any depth: the callbacks of the activation started at depth i run the i-th script of the list;
+   below the last script nesting acts do nothing *)
+Fixpoint exN (scs : list script) : executor :=
+  match scs with
+  | [] => ex0
+  | sc2 :: rest => ex_next (exN rest) sc2
+  end.
+
+(* a STRONG container of agents (a list, GroupBy(result_type="list").groups) keeps them alive as
+   long as it exists *)
+Definition hold (l : list Z) (s : st) : st := set_frames (map Some l ++ cur s) s.
+Definition release (n : nat) (s : st) : st := set_frames (skipn n (cur s)) s.
 
 (* AgentSet.groupby(by): defaultdict(list) filled in iteration order, one weak AgentSet per key *)
 Definition gkey (m a : Z) : Z := a mod m.
@@ -277,14 +304,33 @@ Fixpoint visit_groups (ex : executor) (k : akind) (sc : script) (gs : list (Z * 
       end
   end.
 
+(* groupby(by, result_type="list"): the GroupBy object holds plain lists of agents; GroupBy.do / map
+   hand each list to the program's callable, which calls every agent of it (a program loop over strong
+   references: liveness is not an issue, every member at groupby time is reached) *)
+Fixpoint visit_lists (ex : executor) (sc : script) (gs : list (Z * list Z)) (s : st)
+  : st * list (Z * list Z) * bool :=
+  match gs with
+  | [] => (s, [], false)
+  | (key, g) :: gs' =>
+      let '(s1, log1, rz1) := visit ex sc g (push_frame s) in
+      let s1' := sweep (pop_frame s1) in
+      if rz1 then (s1', [(key, log1)], true) else
+      let '(s2, logs, rz) := visit_lists ex sc gs' s1' in (s2, (key, log1) :: logs, rz)
+  end.
+Definition group_lists (ex : executor) (sc : script) (m : Z) (members : list Z) (s : st)
+  : st * list (Z * list Z) * bool :=
+  let '(s1, logs, rz) := visit_lists ex sc (groups_of m members) (hold members s) in
+  (sweep (release (length members) s1), logs, rz).
+
 (* --- histories --- *)
 Inductive op :=
 | OAct (a : act)                                    (* the program itself, outside any activation *)
 | ONewSet (ids : list Z)                            (* AgentSet([those still alive], random) *)
 | OCollect                                          (* gc.collect() *)
-| OActivate (k : akind) (s : sref) (perm : list Z) (sc sc2 : script) (args : list Z)
-| OShuffleThenDo (s : sref) (perm : list Z) (sc sc2 : script) (args : list Z)   (* s.shuffle().do(...) *)
-| OGroup (k : akind) (s : sref) (m : Z) (perms : list (list Z)) (sc sc2 : script) (args : list Z).
+| OActivate (k : akind) (s : sref) (perm : list Z) (sc : script) (scs : list script) (args : list Z)
+| OShuffleThenDo (s : sref) (perm : list Z) (sc : script) (scs : list script) (args : list Z)   (* s.shuffle().do(...) *)
+| OGroup (k : akind) (s : sref) (m : Z) (perms : list (list Z)) (sc : script) (scs : list script) (args : list Z)
+| OGroupList (s : sref) (m : Z) (sc : script) (scs : list script) (args : list Z).  (* groupby(result_type="list").do/map(callable) *)
 
 (* observation: the registry, the program's references and every set, in order *)
 Definition enc_ref (r : sref) : list Z :=
@@ -319,37 +365,47 @@ Definition step (s0 : st) (o : op) : st * list Z :=
                      (sets s ++ [(SUser (nuser s), m)]) (nuser s + 1) (nlog s) in
       (s', view s')
   | OCollect => (s, view s)
-  | OActivate k r perm sc sc2 args =>
+  | OActivate k r perm sc scs args =>
       match lookup r (sets s) with
       | None => (s, [-2])
       | Some snap =>
-          match activate (ex1 sc2) k perm sc snap s with
+          match activate (exN scs) k perm sc snap s with
           | None => (s, [-3])
           | Some res => obs_activation k args res
           end
       end
-  | OShuffleThenDo r perm sc sc2 args =>
+  | OShuffleThenDo r perm sc scs args =>
       match lookup r (sets s) with
       | None => (s, [-2])
       | Some snap =>
-          match shuffle_then_do (ex1 sc2) perm sc snap s with
+          match shuffle_then_do (exN scs) perm sc snap s with
           | None => (s, [-3])
           | Some res => obs_activation KDo args res
           end
       end
-  | OGroup k r m perms sc sc2 args =>
+  | OGroup k r m perms sc scs args =>
       match lookup r (sets s) with
       | None => (s, [-2])
       | Some members =>
           if m <=? 0 then (s, [-2]) else
-          match visit_groups (ex1 sc2) k sc (groups_of m members) perms s with
+          match visit_groups (exN scs) k sc (groups_of m members) perms s with
           | None => (s, [-3])
           | Some (s', logs, rz) =>
               (s', flat_map (fun kl => (-34 :: fst kl :: obs_log args (snd kl))) logs
                    ++ (if rz then [-37] else [-32]) ++ (-38 :: nlog s') ++ view s')
           end
       end
+  | OGroupList r m sc scs args =>
+      match lookup r (sets s) with
+      | None => (s, [-2])
+      | Some members =>
+          if m <=? 0 then (s, [-2]) else
+          let '(s', logs, rz) := group_lists (exN scs) sc m members s in
+          (s', flat_map (fun kl => (-34 :: fst kl :: obs_log args (snd kl))) logs
+               ++ (if rz then [-37] else [-32]) ++ (-38 :: nlog s') ++ view s')
+      end
   end.
+
 
 Fixpoint run_ops (s : st) (ops : list op) : list (list Z) :=
   match ops with
